@@ -397,7 +397,13 @@ class AnsiSqlDialect:
         Same kind of tuple as with :py:meth:`fields.AbstractFieldFormat.sql_ansi_type().`
         """
         assert_is_valid_ansi_type(sql_ansi_type)
-        return sql_ansi_type
+        result = sql_ansi_type
+        if (sql_ansi_type[0] == "int") and (len(sql_ansi_type) >= 2):
+            limit = sql_ansi_type[1]
+            if (limit is not None) and (limit > MAX_BIGINT):
+                # No integer type of any implementation can store such a number.
+                result = ("decimal", _tools.length_of_int(limit + 1), 0)
+        return result
 
     def sql_string_escaped(self, text):
         assert text is not None
